@@ -49,10 +49,15 @@ TARGETS = {
     'C01': CORE + apply_targets(['not', 'and', 'or', 'xor', 'implies', 'equiv', 'diff', 'ite']),
     'C02': [T(B + 'find_or_add'), T(B + '_ite'), T(B + '_init_terminal'), T(B + 'add_var'), T(B + 'declare'), T(B + 'incref'), T(B + 'decref'),
             T(B + 'var', B + 'var!body')] + GC,
-    'C03': [T(B + '_quantify')] + apply_targets(['forall', 'exists']),
+    'C03': [T(B + '_quantify'), T(B + 'quantify', B + 'quantify!body'), T(B + 'forall'), T(B + 'exist')] + apply_targets(['forall', 'exists']),
     'C04': [T(B + '_cofactor'), T(B + '_compose'), T(B + '_vector_compose'),
             T('dd.bdd._copy_bdd', variant='same-manager', alias={'old_bdd': 'bdd'}), T('dd.bdd.rename'),
-            T(B + 'rename', B + 'rename!body')],
+            T(B + 'rename', B + 'rename!body'), T(B + 'cofactor', B + 'cofactor!body'),
+            T(B + 'compose', B + 'compose!body:one', variant='one-variable'),
+            T(B + 'compose', B + 'compose!body:several', variant='several-variables'),
+            T(B + 'let', B + 'let:bool', variant='constants', args={'definitions': 'dict:name->bool'}),
+            T(B + 'let', B + 'let:int', variant='functions', args={'definitions': 'dict:name->int'}),
+            T(B + 'let', B + 'let:name', variant='names', args={'definitions': 'dict:name->name'})],
     'C06': [T(B + 'incref'), T(B + 'decref'), T(B + 'ref'), T(B + 'find_or_add')] + GC,
     'C09': PLUMBING + [T(B + 'ite', B + 'ite!body'), T(B + 'var', B + 'var!body'), T(B + 'rename', B + 'rename!body'),
                        T('dd.bdd.copy_bdd', variant='two-managers')],
